@@ -198,6 +198,8 @@ def expand(op):
     dt = _dt(op)
     if op[0] == "adapt":
         return _adapt_ops(op)
+    if op[0] == "relay":
+        return [_relay_scalar(op)]
     if op[0] == "to_units":
         return [op[:4] + [_cells(op[4], 0, dt)[0][0]]]
     if op[0] not in ("prepare", "link"):
@@ -217,6 +219,25 @@ def answers(op, got):
     if got[0] == "multi":
         return got[1]
     return [got] * len(sops)
+
+
+# styles of the relaying component of a "relay" op  [relay, s, m, o, d, x, style]
+RELAY_STYLES = [
+    "TimeTrigger(in_info units m, out_info units o)",                       # quantity forwarded, gain 1
+    "TimeTrigger(in_info units None, out_info units None)",                 # In adopts s, Out adopts d
+    "In declared m; Out = [FromInput(In), FromValue(units, o)]; pushes Quantity(2*mag, m)",
+    "In declared m; Out = [FromInput(In), FromValue(units, o)]; pushes plain 2*mag (meant in o)",
+    "Out declared o; In = [FromOutput(Out), FromValue(units, m)]; pushes Quantity(2*mag, m)",
+    "Out declared o; In = [FromOutput(Out), FromValue(units, m)]; pushes plain 2*mag (meant in o)",
+]
+
+
+def _relay_scalar(op):
+    """[relay_s, s, m, o, d, bare, gain, x]: the model op of a relay op"""
+    _, s_, m, o, d, x, style = op
+    if style == 1:
+        m, o = s_, d
+    return ["relay_s", s_, m, o, d, style in (3, 5), 1 if style in (0, 1) else 2, x]
 
 
 def _adapt_ops(op):
@@ -251,7 +272,10 @@ RULE = (
     "incompatible with the DELIVERED units; fill ops (a state reset with full_like(template, "
     "Quantity in foreign units) and published) and chain ops (a real Composition: generator -> component whose input "
     "declares its own units and whose output info comes from connector.in_infos or a FromInput rule, pushing plain "
-    "doubled magnitudes -> consumer); 30% of the to_units/prepare/link payloads have an integer dtype (int64/int32/int16, "
+    "doubled magnitudes -> consumer) and relay ops (generator -> component with own units on BOTH sides: finam's "
+    "TimeTrigger with in_info and out_info (explicit units / units=None), components whose In or Out info is composed "
+    "by a field-less FromInput/FromOutput rule followed by FromValue('units', ..), pushing quantities or plain "
+    "numbers -> consumer); 30% of the to_units/prepare/link payloads have an integer dtype (int64/int32/int16, "
     "plain and masked; the expected numbers are the exact rational conversion of the integers); 40% of the links are static (Output(static) >> Input(static), one publication) and "
     "links are read 1-4 times, every read judged; non-trivial = a session that repeats a pair after it was "
     "cached, contains a clear, and contains compatible-not-equivalent, equivalent-not-identical and incompatible pairs; "
@@ -341,6 +365,22 @@ def pure(op):
         xs, sl1 = 2 * g1[3], 2 * slack(s_, m, x)
         g2 = _pure_to_units(m, d, True, xs)
         return ["link", CID[m], g1[2], xs, sl1, CID[g2[1]], g1[2] or g2[2], g2[3], slack(m, d, xs) + sl1 * FAC[m] / FAC[d]]
+    if k == "relay_s":
+        s_, m, o, d, bare, g, x = op[1], op[2], op[3], op[4], op[5], F(op[6]), F(op[7])
+        if not compat(s_, m) or not compat(o, d):
+            return ["err", "MetaDataError"]
+        g1 = _pure_to_units(s_, m, True, x)
+        gy, s1 = g * g1[3], abs(g) * slack(s_, m, x)
+        if bare:
+            st, t1 = ("val", o, False, gy), s1
+        else:
+            st = _pure_prepare(m, o, gy)
+            if st[0] == "err":
+                return ["err", st[1]]
+            t1 = slack(m, o, gy) + s1 * FAC[m] / FAC[o]
+        g2 = _pure_to_units(st[1], d, True, st[3])
+        return ["link", CID[st[1]], g1[2] or st[2], st[3], t1, CID[g2[1]], g1[2] or st[2] or g2[2], g2[3],
+                slack(o, d, st[3]) + t1 * FAC[o] / FAC[d]]
     if k == "alink":
         kk, a, d, b, x = op[1], op[2], op[3], op[4], F(op[5])
         if not compat(b, d):
@@ -419,6 +459,10 @@ def _mk_op(rng, kind, i, j, third=None):
     if kind == "fill":  # i = units of the state / output, j = units of the consumer
         f = _same_dim(rng, i) if rng.random() < 0.9 else rng.randrange(NCAT)
         return ["fill", f, i, j, rng.choice(XS), rng.randrange(3)]
+    if kind == "relay":  # i = units of the relaying component's output, j = units of the consumer
+        m = _same_dim(rng, i) if rng.random() < 0.85 else rng.randrange(NCAT)
+        s_ = _same_dim(rng, m) if rng.random() < 0.9 else rng.randrange(NCAT)
+        return ["relay", s_, m, i, j, rng.choice(XS), rng.randrange(len(RELAY_STYLES))]
     if kind == "chain":  # i = own units of the component in the middle, j = units of the consumer
         s_ = _same_dim(rng, i) if rng.random() < 0.9 else rng.randrange(NCAT)
         return ["chain", s_, i, j, rng.choice(XS), rng.randrange(2)]
@@ -466,10 +510,11 @@ def _focus_session(rng, n):
         i, j, k = rng.choice(names), rng.choice(names), rng.choice(names)
         if ops and len(ops[-1]) > 2 and rng.random() < 0.25:  # reversed / repeated pair of the previous op
             p = ops[-1]
-            a, b = (p[2], p[3]) if p[0] in ("link", "adapt", "fill", "chain") else (p[3], p[4]) if p[0] == "alink" else (p[1], p[2])
+            a, b = (p[2], p[3]) if p[0] in ("link", "adapt", "fill", "chain") else (p[3], p[4]) if p[0] == "relay" else (p[3], p[4]) if p[0] == "alink" else (p[1], p[2])
             i, j = (b, a) if rng.random() < 0.6 else (a, b)
         r = rng.random()
-        kind = ("alink" if r < 0.07 else "adapt" if r < 0.11 else "fill" if r < 0.18 else "chain" if r < 0.25 else
+        kind = ("alink" if r < 0.07 else "adapt" if r < 0.11 else "fill" if r < 0.17 else "chain" if r < 0.22 else
+                "relay" if r < 0.32 else
                 rng.choice(OPK[:6]) if r < 0.96 else "same")
         ops.append(_mk_op(rng, kind, i, j, k))
     return {"ops": ops}
@@ -487,7 +532,8 @@ def _sweep_sessions(rng, per):
             r = rng.random()
             kind = ("compat" if r < 0.2 else "equiv" if r < 0.4 else "to_units" if r < 0.55 else
                     "prepare" if r < 0.67 else "accepts" if r < 0.72 else "same" if r < 0.75 else
-                    "alink" if r < 0.8 else "adapt" if r < 0.83 else "fill" if r < 0.87 else "chain" if r < 0.91 else "link")
+                    "alink" if r < 0.8 else "adapt" if r < 0.83 else "fill" if r < 0.86 else "chain" if r < 0.89 else
+                    "relay" if r < 0.93 else "link")
             third = _same_dim(rng, i) if rng.random() < 0.8 else None
             ops.append(_mk_op(rng, kind, i, j, third))
             if rng.random() < 0.3:  # ask the other half of the memo entry as well
@@ -501,6 +547,20 @@ def _i(n):
 
 
 CORPUS = [
+    # seeded/C17_l: finam's TimeTrigger with in_info AND out_info forwards the pulled QUANTITY (1.5 m through
+    # In mm / Out km arrives as 150 cm); seeded/C17_m: a field-less FromInput/FromOutput rule followed by
+    # FromValue("units", ..) must not rewrite the units of the slot the info was taken from
+    {"ops": [["relay", _i("m"), _i("mm"), _i("km"), _i("cm"), 1.5, 0], ["relay", _i("m"), _i("m"), _i("m"), _i("km"), 1.5, 1],
+             ["relay", _i("degC"), _i("degC"), _i("K"), _i("degF"), 20.0, 0], ["relay", _i("degC"), _i("K"), _i("K"), _i("K"), 20.0, 1],
+             ["relay", _i("hPa"), _i("Pa"), _i("hPa"), _i("Pa"), 1013.25, 0], ["relay", _i("mm/d"), _i("mm/d"), _i("m/s"), _i("mm/h"), 12.0, 0],
+             ["relay", _i("%"), _i("1"), _i("ppm"), _i("%"), 30.0, 0], ["relay", _i("m"), _i("mm"), _i("s"), _i("s"), 1.0, 0],
+             ["relay", _i("m"), _i("s"), _i("s"), _i("s"), 1.0, 0], ["relay", _i("Hz"), _i("1/s"), _i("s-1"), _i("Hz"), 2.5, 0],
+             ["relay", _i("mm"), _i("m"), _i("km"), _i("cm"), 1500.0, 2], ["relay", _i("mm"), _i("m"), _i("km"), _i("cm"), 1500.0, 3],
+             ["relay", _i("mm"), _i("m"), _i("km"), _i("cm"), 1500.0, 4], ["relay", _i("mm"), _i("m"), _i("km"), _i("cm"), 1500.0, 5],
+             ["relay", _i("degF"), _i("degC"), _i("K"), _i("degC"), 68.0, 2], ["relay", _i("K"), _i("degC"), _i("K"), _i("degF"), 300.0, 5],
+             ["relay", _i("ppm"), _i("%"), _i("1"), _i("%"), 30.0, 3], ["relay", _i("m/s"), _i("mm/d"), _i("mm/h"), _i("m/s"), 1.0, 4],
+             ["relay", _i("mm"), _i("m"), _i("s"), _i("s"), 1.0, 2], ["relay", _i("mm"), _i("m"), _i("s"), _i("s"), 1.0, 3],
+             ["relay", _i("mm"), _i("s"), _i("km"), _i("cm"), 1.0, 4], ["relay", _i("mm"), _i("m"), _i("km"), _i("s"), 1.0, 5]]},
     # seeded/C17_j: full_like with a fill value that is a QUANTITY in foreign units must convert the fill value
     # (1.5 km into an m state -> 1500 m -> consumer cm 150000); seeded/C17_k: a component whose input declares its own
     # units and whose output info is derived from connector.in_infos / FromInput pushes plain numbers in ITS units
@@ -691,6 +751,95 @@ def _run_chain(fm, np, s_, m, d, x, style):
     return mid.last, sink.data["In"]
 
 
+_RELAYS = None
+
+
+def _run_relay(fm, np, s_, m, o, d, x, style):
+    """generator [s_] --> relaying component (RELAY_STYLES[style]; In m, Out o) --> consumer [d], run by a real
+    Composition for one time step; returns (what the component's output held after its last push, what the
+    consumer received)"""
+    global _RELAYS
+    from datetime import timedelta
+    from ..fin import T
+    from finam.components.debug import DebugConsumer
+    from finam.components.generators import CallbackGenerator
+    from finam.tools.connect_helper import FromInput, FromOutput, FromValue
+
+    t0, day = T(0), timedelta(days=1)
+    if _RELAYS is None:
+        class Trigger(fm.components.TimeTrigger):
+            """finam's TimeTrigger; only remembers what its output holds after each step"""
+            last = None
+
+            def _update(self):
+                super()._update()
+                self.last = self.outputs["Out"].data[-1][1]
+
+        class RuleComp(fm.TimeComponent):
+            """doubles the magnitudes of its input; one slot's info is derived from the other by rules"""
+
+            def __init__(self, m_, o_, from_out, bare):
+                super().__init__()
+                self.time = t0
+                self.m_, self.o_, self.from_out, self.bare = m_, o_, from_out, bare
+                self.last = None
+
+            def _next_time(self):
+                return self.time + day
+
+            def _initialize(self):
+                if self.from_out:
+                    self.inputs.add(name="In")
+                    self.outputs.add(name="Out", time=self.time, grid=fm.NoGrid(), units=self.o_)
+                    self.create_connector(
+                        pull_data=["In"], in_info_rules={"In": [FromOutput("Out"), FromValue("units", self.m_)]})
+                else:
+                    self.inputs.add(name="In", time=self.time, grid=None, units=self.m_)
+                    self.outputs.add(name="Out")
+                    self.create_connector(
+                        pull_data=["In"], out_info_rules={"Out": [FromInput("In"), FromValue("units", self.o_)]})
+
+            def _work(self, data):
+                v = 2.0 * fm.data.get_magnitude(data)
+                return v if self.bare else fm.UNITS.Quantity(v, self.m_)
+
+            def _connect(self, start_time):
+                push = {}
+                data = self.connector.in_data["In"]
+                if data is not None and not self.connector.data_pushed["Out"]:
+                    push["Out"] = self._work(data)
+                self.try_connect(start_time, push_data=push)
+
+            def _validate(self):
+                pass
+
+            def _update(self):
+                self.time += day
+                self.outputs["Out"].push_data(self._work(self.inputs["In"].pull_data(self.time)), self.time)
+                self.last = self.outputs["Out"].data[-1][1]
+
+            def _finalize(self):
+                pass
+
+        _RELAYS = (Trigger, RuleComp)
+    Trigger, RuleComp = _RELAYS
+    src = CallbackGenerator(
+        callbacks={"Out": (lambda t: np.asarray(x, dtype=float), fm.Info(time=t0, grid=fm.NoGrid(), units=s_))},
+        start=t0, step=day)
+    if style in (0, 1):
+        um, uo = (m, o) if style == 0 else (None, None)
+        mid = Trigger(start=t0, step=day, in_info=fm.Info(time=None, grid=None, units=um),
+                      out_info=fm.Info(time=None, grid=None, units=uo))
+    else:
+        mid = RuleComp(m, o, style in (4, 5), style in (3, 5))
+    sink = DebugConsumer(inputs={"In": fm.Info(time=None, grid=fm.NoGrid(), units=d)}, start=t0, step=day)
+    comp = fm.Composition([src, mid, sink], log_level="CRITICAL")
+    src.outputs["Out"] >> mid.inputs["In"]
+    mid.outputs["Out"] >> sink.inputs["In"]
+    comp.run(start_time=t0, end_time=t0 + day)
+    return mid.last, sink.data["In"]
+
+
 _RELABEL = None
 
 
@@ -850,6 +999,9 @@ def run_impl(case):
             elif k == "chain":
                 st, got = _run_chain(fm, np, NAMES[op[1]], NAMES[op[2]], NAMES[op[3]], op[4], op[5] if len(op) > 5 else 0)
                 res.append(["link", _label(st.units), _frs(_fr(st.magnitude)), _label(got.units), _frs(_fr(got.magnitude))])
+            elif k == "relay":
+                st, got = _run_relay(fm, np, NAMES[op[1]], NAMES[op[2]], NAMES[op[3]], NAMES[op[4]], op[5], op[6])
+                res.append(["link", _label(st.units), _frs(_fr(st.magnitude)), _label(got.units), _frs(_fr(got.magnitude))])
             elif k == "adapt":
                 _, kind, a, b = op
                 out = fm.Output(name="Out")
@@ -899,6 +1051,8 @@ def _coq_op(op):
         return C("Accepts", _U(op[1]), C("mkE", N(1000 + CID[a]), C("mkU", d, Q(FAC[a]), Q(0))))
     if k == "fill":
         return C("Fill", _U(op[1]), _U(op[2]), _U(op[3]), Q(F(op[4])))
+    if k == "relay_s":
+        return C("Relay", _U(op[1]), _U(op[2]), _U(op[3]), _U(op[4]), B(op[5]), Q(F(op[6])), Q(F(op[7])))
     if k == "chain":
         return C("Chain", _U(op[1]), _U(op[2]), _U(op[3]), Q(F(op[4])))
     if k == "alink":
@@ -995,7 +1149,8 @@ def _show(op):
     if k == "clear":
         return "clear"
     idx = {"compat": (1, 2), "equiv": (1, 2), "same": (1, 2), "accepts": (1, 2), "to_units": (1, 2), "prepare": (1, 2), "link": (1, 2, 3),
-           "alink": (1, 2, 3, 4), "adapt": (2, 3), "accsum": (1, 2), "fill": (1, 2, 3), "chain": (1, 2, 3)}[k]
+           "alink": (1, 2, 3, 4), "adapt": (2, 3), "accsum": (1, 2), "fill": (1, 2, 3), "chain": (1, 2, 3),
+           "relay": (1, 2, 3, 4), "relay_s": (1, 2, 3, 4)}[k]
     for p in idx:
         o[p] = None if o[p] is None else NAMES[o[p]]
     return o
@@ -1013,7 +1168,7 @@ def monitor(case, obs):
         for q, (sop, g) in enumerate(zip(sops, gots)):
             f = _cmp(_show(sop), pure(sop), g)
             if f:
-                where = LAYOUTS[_lay(op)]
+                where = RELAY_STYLES[op[6]] if op[0] == "relay" else LAYOUTS[_lay(op)]
                 if op[0] == "link":
                     where += f", {'static' if st else 'timed'} link, read {q // max(1, len(sops) // reads) + 1} of {reads}"
                 return f"op {n} [{where}]: {f}"
@@ -1032,6 +1187,8 @@ def _pairs(op):
         return [(op[2], op[3])]
     if k in ("fill", "chain"):
         return [(op[1], op[2]), (op[2], op[3])]
+    if k == "relay":
+        return [(op[1], op[2]), (op[2], op[3]), (op[3], op[4])]
     return [(op[1], op[2])]
 
 
